@@ -520,9 +520,14 @@ namespace fixedmath
       {
       if( fixed_likely(y.v != 0) )
         {
-        fixed_t result { as_fixed( (x << 16).v / y.v ) };
-//         if( fixed_likely( check_division_result(result)) )
+        //dividend is shifted left by 16 bits, for |x| >= 2^31 the shift drops significant bits
+        //and -2^31 becomes lowest int64 which traps when divided by -1
+        constexpr fixed_internal dividend_limit { fixed_internal(1) << 47 };
+        if( fixed_likely( x.v > -dividend_limit && x.v < dividend_limit ) )
+          {
+          fixed_t result { as_fixed( (x << 16).v / y.v ) };
           return result;
+          }
         }
       return quiet_NaN_result(); //abort ?
       }
@@ -557,6 +562,12 @@ namespace fixedmath
       {
       if( fixed_likely(rh != 0) )
         {
+        if constexpr( is_unsigned_v<integral_type> && sizeof(integral_type) == sizeof(fixed_internal) )
+          {
+          //value not representable in signed type is greater than any |lh|, quotient truncates to zero
+          if( fixed_unlikely( rh > static_cast<integral_type>(std::numeric_limits<fixed_internal>::max()) ) )
+            return fixed_t{};
+          }
         fixed_t const result = as_fixed( lh.v / promote_type_to_signed(rh) );
 //         if( fixed_likely( check_division_result(result)) )
           return result;
